@@ -35,7 +35,10 @@ impl PartialOrd for Po {
     }
 }
 
+// the user's own pattern type implements the std traits a generic impl inside the crate could key on (seed C16-12: Display)
+#[derive(Debug, Clone, Copy, PartialEq, Eq, PartialOrd, Ord, Hash, Default)]
 pub struct Prefix(pub &'static str);
+impl std::fmt::Display for Prefix { fn fmt(&self, f: &mut std::fmt::Formatter<'_>) -> std::fmt::Result { write!(f, "{}*", self.0) } }
 impl Like<Prefix> for String { fn like(&self, p: &Prefix) -> bool { self.starts_with(p.0) } }
 """
 
